@@ -1,7 +1,7 @@
 """C02 - restructuring accepts every closed CFG (no exception, terminates)."""
 import signal
 
-from vf.s1common import s1_jobs, exc_signature, graph_features
+from vf.s1common import s1_jobs, exc_signature, graph_features, front_end_jobs
 from vf.oracles.hier import build_scfg, STAGES
 
 PROPERTY = "C02"
@@ -60,7 +60,7 @@ def harness(E, ctx, aux, desc):
 
 
 def jobs(tier):
-    return s1_jobs(tier, harness)
+    return s1_jobs(tier, harness) + front_end_jobs(tier, harness)
 
 
 def replay(desc):
